@@ -23,7 +23,7 @@ import interp  # noqa: E402
 import model as M  # noqa: E402
 import pp  # noqa: E402
 
-FUEL = 150000
+FUEL = 60000
 
 
 def module_for(seed, index, size=None, opts=None):
@@ -76,9 +76,10 @@ def main(argv=None):
     ap.add_argument("--show", type=int, default=10)
     ap.add_argument("--dump", default=None)
     ap.add_argument("--allow-hazard", action="store_true")
+    ap.add_argument("--include-known", action="store_true", help="also generate the shapes that trigger recorded findings (FINDINGS.md)")
     ap.add_argument("--shards", type=int, default=None)
     a = ap.parse_args(argv)
-    opts = {"allow_hazard": a.allow_hazard}
+    opts = {"allow_hazard": a.allow_hazard, "include_known": a.include_known}
 
     t0 = time.time()
     cs = list(cases(a.seed, a.n, a.args, a.size, opts))
@@ -98,6 +99,7 @@ def main(argv=None):
     st = {"modules": len(cs), "rejected": 0, "panic": 0, "died": 0, "agree_value": 0, "agree_abort": 0, "fuel": 0, "disagree": 0, "other": 0, "lazy_explained": 0}
     feats = {}
     disagreements = []
+    panics = {}
     rejected = []
     for c in cs:
         for f, n in c["feature_counts"].items():
@@ -125,6 +127,11 @@ def main(argv=None):
                     st["agree_value"] += 1
                 elif exp[0] == "abort" and o[0] == "abort":
                     st["agree_abort"] += 1
+                elif o[0] == "other" and "panic" in got:
+                    # the evaluator itself panicked (a uplc machine defect: properties C04/C10), not a C01 verdict
+                    site = got["panic"].split(" @ ")[-1]
+                    st["machine_panic"] = st.get("machine_panic", 0) + 1
+                    panics.setdefault(site, []).append((c, e, k, exp, got))
                 elif o[0] == "other":
                     st["other"] += 1
                     disagreements.append((c, e, k, exp, got, None))
@@ -141,7 +148,10 @@ def main(argv=None):
     print("modules generated      : %d  (%.1f modules/min generation+interpretation)" % (st["modules"], 60.0 * st["modules"] / max(t_gen, 1e-9)))
     print("rejected by checker    : %d (%.1f%%)   driver died/timeouts: %d   compile panics: %d" % (st["rejected"], 100.0 * st["rejected"] / max(1, st["modules"]), st["died"], st["panic"]))
     print("cases agreed           : %d  (value %d, abort %d = %.1f%% aborts)  fuel-skipped %d  other %d" % (total, st["agree_value"], st["agree_abort"], 100.0 * st["agree_abort"] / max(1, total), st["fuel"], st["other"]))
-    print("DISAGREEMENTS          : %d  (of which explained by call-by-need evaluation: %d)" % (st["disagree"], st["lazy_explained"]))
+    print("DISAGREEMENTS          : %d new  + %d that coincide with a call-by-need evaluation of the source (FINDINGS.md F1 class)" % (st["disagree"] - st["lazy_explained"], st["lazy_explained"]))
+    for site, lst in sorted(panics.items()):
+        c, e, k, exp, got = lst[0]
+        print("machine panic (C04/C10) : %d cases at %s  e.g. module %d %s args %s: %s" % (len(lst), site, c["index"], e["name"], json.dumps(e["args"][k])[:200], got["panic"][:160]))
     print("driver wall            : %.1fs   generation wall: %.1fs" % (t_run, t_gen))
     print("feature coverage (modules using the feature):")
     line = []
@@ -173,7 +183,7 @@ def main(argv=None):
             if not a.dump:
                 print(c["src"])
     print("modules with a disagreement: %s" % sorted(seen_mod))
-    return 1 if (st["disagree"] or st["panic"]) else 0
+    return 1 if (st["disagree"] - st["lazy_explained"] or st["panic"]) else 0
 
 
 if __name__ == "__main__":
